@@ -42,6 +42,8 @@ def rand_value(rng, fmt):
     if fmt == "x":
         # a decimal with five fractional digits, either sign
         return rng.choice([1, -1]) * rng.randint(0, 10 ** 10) / 100000
+    if len(fmt) == 2 and fmt[0] in "<>=!":
+        return rand_value(rng, fmt[1])       # one value with a byte order
     if len(fmt) > 1:
         # multi-element formats are tuples
         n = int(fmt[0]) if fmt[0].isdigit() else None
@@ -57,6 +59,8 @@ def rand_value(rng, fmt):
 def same(fmt, a, b):
     if fmt == "x":
         return round(a * 100000) == round(b * 100000)
+    if len(fmt) == 2 and fmt[0] in "<>=!":
+        return type(a) is type(b) and a == b
     if len(fmt) > 1:
         return tuple(a) == tuple(b)
     return a == b
@@ -77,7 +81,8 @@ def check_case(rng, res):
     if any(k >= procchild.C29_PLAIN for k in ks):
         res.count("configurations_with_a_derived_device_class")
     if any(struct.calcsize(f) != struct.calcsize("=" + f)
-           for fs in desc["formats"] for f in fs if f != "x"):
+           for fs in desc["formats"] for f in fs
+           if f != "x" and f[0] not in "<>=!"):
         res.count("configurations_with_a_natively_padded_format")
     devs = [classes[k]() for k in ks]
     if not exchange(rng, res, devs, desc):
